@@ -5,20 +5,17 @@ import glob, os, subprocess, sys
 sys.path.insert(0, '/verif')
 prop = sys.argv[1]
 d = sys.argv[2] if len(sys.argv) > 2 else f'/tmp/wt/{prop}.out'
-wt = f'/tmp/wt/{prop}'
+wt = '/tmp/wt/_try'
 if not os.path.isdir(wt):
-    wt = '/tmp/wt/_try'
-    if not os.path.isdir(wt):
-        subprocess.check_call(['git', '-C', '/repo', 'worktree', 'add', '-q', '--detach', wt, 'HEAD'])
-subprocess.check_call(['git', '-C', wt, 'checkout', '-q', '--', '.'])
-if wt.endswith('_try'):
-    subprocess.check_call(['git', '-C', wt, 'checkout', '-q', '--detach', subprocess.check_output(['git', '-C', '/repo', 'rev-parse', 'HEAD']).decode().strip()])
+    subprocess.check_call(['git', '-C', '/repo', 'worktree', 'add', '-q', '--detach', wt, 'HEAD'])
+subprocess.check_call(['git', '-C', wt, 'reset', '-q', '--hard'])
+subprocess.check_call(['git', '-C', wt, 'checkout', '-q', '--detach', subprocess.check_output(['git', '-C', '/repo', 'rev-parse', 'HEAD']).decode().strip()])
 os.environ['SCMO_REPO'] = wt
 from sa.run import check
 patches = sorted(glob.glob(os.path.join(d, 'patch*.diff')) + glob.glob(os.path.join(d, '*', 'patch.diff')))
 props = sys.argv[3].split(',') if len(sys.argv) > 3 else [prop]
 for p in patches:
-    r = subprocess.run(['git', '-C', wt, 'apply', p], capture_output=True, text=True)
+    r = subprocess.run(['git', '-C', wt, 'apply', '--3way', p], capture_output=True, text=True)
     if r.returncode:
         print(p, 'DOES NOT APPLY', r.stderr[:200]); continue
     try:
@@ -28,4 +25,4 @@ for p in patches:
             for l in lines[1:4]:
                 print('   ', l[:300])
     finally:
-        subprocess.check_call(['git', '-C', wt, 'checkout', '-q', '--', '.'])
+        subprocess.check_call(['git', '-C', wt, 'reset', '-q', '--hard'])
